@@ -14,7 +14,7 @@
     model; no theorem about it would mean anything. That clause of C14 is
     decided by the harness alone (deep snapshots), see harness/c14.py. *)
 From JSL Require Import Base Instance Dstate Filters World Observers Feasible DispatchFun Inv Run
-  Views ViewsSpec ViewsProofs FjsInv FjsStep FjsRebuild FjsIff SchedDict.
+  Views ViewsSpec ViewsProofs FjsInv FjsStep FjsRebuild FjsIff FjsPerm SchedDict.
 From Coq Require Import Permutation.
 
 (** * 1. Numbering: job id, position, dense job-major operation id *)
@@ -227,10 +227,7 @@ Print Assumptions C14_accepted_feasible.
     relation is acyclic ([clos_trans] irreflexive) iff it has a linear
     extension (topological sort), together with the decoding of the k-th
     occurrence of a job id in [P[m]] into an operation that is needed to state
-    the machine order without [L]. Also not proved here: for true per-machine
-    permutations the rejection is always the ValidationError, never the
-    IndexError (only "IndexError or ValidationError", theorem above); the
-    harness checks that part on every deadlocking permutation it generates.
+    the machine order without [L].
     Zero durations: a cyclic [P] may still admit a schedule that is feasible
     in the weak sense (all operations of the cycle at one instant); the
     library rejects it, and it is the acyclicity reading that is formalised. *)
@@ -247,6 +244,16 @@ Proof.
 Qed.
 Print Assumptions C14_accept_iff_acyclic_partial.
 
+(** An accepted schedule has exactly the requested per-machine job sequences. *)
+Theorem C14_accepted_has_requested_sequences :
+  forall (I : instance) (P : list (list nat)) (rows : schedule),
+    valid I -> single_machine I ->
+    length P = num_machines I -> sumN (map (@length nat) P) = num_ops I ->
+    from_job_sequences I (map (map Z.of_nat) P) = FOk rows ->
+    job_sequences rows = map (map Z.of_nat) P.
+Proof. exact accepted_rows_have_sequences. Qed.
+Print Assumptions C14_accepted_has_requested_sequences.
+
 (** The accepted schedule is the one built by dispatching along the linear
     extension; no shape hypothesis is needed in this direction. *)
 Theorem C14_linear_extension_accepted :
@@ -256,6 +263,28 @@ Theorem C14_linear_extension_accepted :
                 from_job_sequences I (map (map Z.of_nat) P) = FOk (sched d).
 Proof. intros I P L Hv Hs. exact (accept_if_linearisable I Hv Hs P L). Qed.
 Print Assumptions C14_linear_extension_accepted.
+
+(** For TRUE per-machine permutations (row m = a rearrangement of the job ids
+    of machine m's operations) exactly two things can happen: a linear
+    extension exists and the sequences are accepted with a feasible complete
+    schedule, or none exists and the rejection is the ValidationError — never
+    an IndexError, never a hang, never an infeasible result. *)
+Theorem C14_true_permutation_outcome :
+  forall (I : instance) (P : list (list nat)),
+    valid I -> single_machine I -> true_permutation I P ->
+    (exists rows, from_job_sequences I (map (map Z.of_nat) P) = FOk rows /\
+                  feasible I rows /\ complete I rows /\ exists L, linearises I P L) \/
+    (from_job_sequences I (map (map Z.of_nat) P) = FErr EValidation /\ ~ exists L, linearises I P L).
+Proof. intros I P Hv Hs. exact (true_permutation_outcome I Hv Hs P). Qed.
+Print Assumptions C14_true_permutation_outcome.
+
+(** * 9. The boolean checkers the harness extracts are the specification *)
+Theorem C14_oracle_is_spec :
+  (forall l x, is_maxb l x = true <-> is_max l x) /\
+  (forall I, single_machine_b I = true <-> single_machine I) /\
+  (forall I, has_machines_b I = true <-> has_machines I).
+Proof. split; [exact is_maxb_spec|split; [exact single_machine_b_spec|exact has_machines_b_spec]]. Qed.
+Print Assumptions C14_oracle_is_spec.
 
 (** * Non-vacuity *)
 
